@@ -174,11 +174,21 @@ pub enum Init {
     FromVec(usize),
     /// `push` of n distinct keys followed by removal (`remove_at(0)`) of the first m
     PushRemove(usize, usize),
+    /// `push` of n entries that all carry the key "d"
+    Dups(usize),
+    /// `push` of n distinct keys, then `remove_at` until `keep` entries remain; the third field
+    /// selects where entries are removed: 0 front, 1 back, 2 alternating, 3 middle
+    GrowShrink(usize, usize, u8),
 }
 
 pub fn pumped_key(i: usize) -> String {
-    // p07 is short (inline storage); every 5th key is long (heap storage)
-    if i % 5 == 4 {
+    // p07 is short (inline storage); every 5th key is long (heap storage); some are longer
+    // than 32 and than 64 bytes (thresholds other than the inline capacity)
+    if i % 20 == 9 {
+        format!("pumped-key-on-the-heap-{i:02}-and-longer-than-thirty-two-bytes")
+    } else if i % 20 == 19 {
+        format!("pumped-key-on-the-heap-{i:02}-and-longer-than-sixty-four-bytes-to-cross-one-more-size-class")
+    } else if i % 5 == 4 {
         format!("pumped-key-on-the-heap-{i:02}")
     } else {
         format!("p{i:02}")
@@ -198,6 +208,44 @@ impl Init {
                     m.push(&k, (i % 2) as Val);
                 }
                 (Object::from_vec(e), m)
+            }
+            Init::GrowShrink(n, keep, how) => {
+                let mut m = RObj::new();
+                let mut o = Object::new();
+                for i in 0..n {
+                    let k = pumped_key(i);
+                    o.push(key(&k), val((i % 2) as Val));
+                    m.push(&k, (i % 2) as Val);
+                }
+                let mut step = 0usize;
+                while m.len() > keep {
+                    let len = m.len();
+                    let at = match how {
+                        0 => 0,
+                        1 => len - 1,
+                        2 => {
+                            if step % 2 == 0 {
+                                0
+                            } else {
+                                len - 1
+                            }
+                        }
+                        _ => len / 2,
+                    };
+                    o.remove_at(at);
+                    m.remove_at(at);
+                    step += 1;
+                }
+                (o, m)
+            }
+            Init::Dups(n) => {
+                let mut m = RObj::new();
+                let mut o = Object::new();
+                for i in 0..n {
+                    o.push(key("d"), val((i % 2) as Val));
+                    m.push("d", (i % 2) as Val);
+                }
+                (o, m)
             }
             Init::PushRemove(n, r) => {
                 let mut m = RObj::new();
@@ -742,8 +790,12 @@ pub fn audit(real: &Object, model: &RObj<Val>, keys: &[String], c14: bool) -> Re
 impl ObjModel {
     fn all_keys(&self, s: &St) -> Vec<String> {
         let mut k = self.cfg.keys.clone();
-        for (key, _) in &s.model.entries {
-            if !k.contains(key) {
+        let n = s.model.entries.len();
+        // pumped objects: the universe keys plus a sample of the present keys (every lookup is
+        // still compared with a full linear scan; the index invariant covers every entry)
+        let step = if n > 64 { n / 16 } else { 1 };
+        for (i, (key, _)) in s.model.entries.iter().enumerate() {
+            if (i % step == 0 || i + 1 == n) && !k.contains(key) {
                 k.push(key.clone());
             }
         }
@@ -761,15 +813,24 @@ impl Model for ObjModel {
             .inits
             .iter()
             .map(|i| {
-                let (real, model) = i.build();
+                // the construction of a start state executes library code too
+                let (real, model, err) = match explore::guard(|| i.build()) {
+                    Ok((real, model)) => (real, model, None),
+                    Err(p) => (Object::new(), RObj::new(), Some(format!("panic while building the start state {i:?}: {p}"))),
+                };
                 let mut s = St {
                     real,
                     model,
-                    err: None,
+                    err,
                     depth: 0,
                     saw: 0,
                 };
-                s.err = audit(&s.real, &s.model, &self.all_keys(&s), true).err();
+                if s.err.is_none() {
+                    s.err = match explore::guard(|| audit(&s.real, &s.model, &self.all_keys(&s), true)) {
+                        Ok(r) => r.err().map(|e| format!("start state {i:?}: {e}")),
+                        Err(p) => Some(format!("start state {i:?}: panic during queries: {p}")),
+                    };
+                }
                 s
             })
             .collect()
